@@ -30,7 +30,7 @@ ASSUMPTIONS = [
     "error rates returned by the implementation's own error_rate (tie-breaking left free)",
     "float32 tolerance 1e-5",
 ]
-BUDGET_S = {"quick": 240, "thorough": 2400}
+BUDGET_S = {"quick": 900, "thorough": 3000}
 
 
 def shards(tier, seed):
